@@ -403,3 +403,76 @@ pub proof fn lemma_rt_transition(t: Transition, tail: Seq<u8>)
     }
     assert(d_tr7(t.id, t.doc_id, t.source, t.target@, ev, fl, cv, r7) == Dec::Ok(trv_persisted(t), tail));
 }
+
+/// list lengths fit the count token (true of every Vec)
+pub open spec fn ec_sizes_ok(v: EcV) -> bool {
+    match v {
+        EcV::Script(x) => x.content@.len() <= u64::MAX,
+        EcV::Send(x) => params_seq(x.params).len() <= u64::MAX && x.name_list@.len() <= u64::MAX,
+        _ => true,
+    }
+}
+
+// serves: C05
+/// every executable-content element: reading what write_executable_content wrote yields the same element
+pub proof fn lemma_rt_ec(v: EcV, tail: Seq<u8>)
+    requires
+        ec_ok(v),
+        ec_sizes_ok(v),
+    ensures
+        d_ec(enc_ec(v) + tail) == Dec::Ok(ecb(v), tail),
+{
+    broadcast use seq_axioms::lemma_add_assoc;
+    match v {
+        EcV::If(x) => {
+            lemma_rt_d_uint(0u64, enc_if(x) + tail);
+            lemma_rt_if(x, tail);
+        }
+        EcV::Expression(x) => {
+            lemma_rt_d_uint(1u64, enc_expression(x) + tail);
+            lemma_rt_expression(x, tail);
+        }
+        EcV::Script(x) => {
+            lemma_rt_d_uint(2u64, enc_script(x) + tail);
+            lemma_rt_script(x, tail);
+        }
+        EcV::Log(x) => {
+            lemma_rt_d_uint(3u64, enc_log(x) + tail);
+            lemma_rt_log(x, tail);
+        }
+        EcV::ForEach(x) => {
+            lemma_rt_d_uint(4u64, enc_for_each(x) + tail);
+            lemma_rt_for_each(x, tail);
+        }
+        EcV::Send(x) => {
+            lemma_rt_d_uint(5u64, enc_send(x) + tail);
+            lemma_rt_send(x, tail);
+        }
+        EcV::Raise(x) => {
+            lemma_rt_d_uint(6u64, enc_raise(x) + tail);
+            lemma_rt_raise(x, tail);
+        }
+        EcV::Cancel(x) => {
+            lemma_rt_d_uint(7u64, enc_cancel(x) + tail);
+            lemma_rt_cancel(x, tail);
+        }
+        EcV::Assign(x) => {
+            lemma_rt_d_uint(8u64, enc_assign(x) + tail);
+            lemma_rt_assign(x, tail);
+        }
+    }
+}
+
+// serves: C05
+/// what the record-level proofs add up to, for one record kind (the others are the same three facts): if the writer
+/// appended enc_parameter(p) and the reader then reads from a reliable source positioned there, it ends ok, has
+/// consumed exactly those bytes, and returns a parameter with the same persisted fields
+pub proof fn lemma_end_to_end_parameter(p: Parameter, tail: Seq<u8>, ok1: bool, rest1: Seq<u8>, q: Parameter)
+    requires
+        parameter_ok(p),
+        rd(d_parameter(enc_parameter(p) + tail), true, ok1, rest1, pv(q)),
+    ensures
+        ok1 && rest1 == tail && pv(q) == pv(p),
+{
+    lemma_rt_parameter(p, tail);
+}
